@@ -9,11 +9,12 @@ require (
 	github.com/IBM/TSS/mpc/bls v0.0.0-20230831100430-0b667a5e3f1c
 	github.com/IBM/TSS/mpc/ps v0.0.0-20230926080141-a58335329fb1
 	github.com/IBM/mathlib v0.0.3-0.20230831091907-c532c4d3b65c
+	github.com/bnb-chain/tss-lib/v2 v2.0.2
+	google.golang.org/protobuf v1.31.0
 )
 
 require (
 	github.com/agl/ed25519 v0.0.0-20200225211852-fd4d107ace12 // indirect
-	github.com/bnb-chain/tss-lib/v2 v2.0.2 // indirect
 	github.com/btcsuite/btcd v0.23.4 // indirect
 	github.com/btcsuite/btcd/btcec/v2 v2.3.2 // indirect
 	github.com/btcsuite/btcd/chaincfg/chainhash v1.0.1 // indirect
@@ -38,7 +39,6 @@ require (
 	go.uber.org/zap v1.26.0 // indirect
 	golang.org/x/crypto v0.13.0 // indirect
 	golang.org/x/sys v0.12.0 // indirect
-	google.golang.org/protobuf v1.31.0 // indirect
 	rsc.io/tmplfunc v0.0.3 // indirect
 )
 
